@@ -1,10 +1,10 @@
 #!/usr/bin/env python3
-"""Writes seeded/<id>/meta.json for the stored round-2/3/4 seeds from the confirmation logs,
+"""Writes seeded/<id>/meta.json for the stored round-2..5 seeds from the confirmation logs,
 the authors' notes and the first-contact logs.  Idempotent."""
 import json, os, re, glob
 os.chdir('/verif')
 fc = {}
-for rnd in (2, 3, 4):
+for rnd in (2, 3, 4, 5):
     p = 'seeded/round%d_first_contact.json' % rnd
     if os.path.exists(p):
         d = json.load(open(p)); d = {k: v for k, v in d.items() if not k.startswith('_')}
@@ -30,7 +30,7 @@ for d in sorted(os.listdir('seeded')):
     res = {}
     rp = '/tmp/confirm/%s%s/result.txt' % (prop, x)
     old = json.load(open(dirp + '/meta.json')) if os.path.exists(dirp + '/meta.json') else {}
-    if os.path.exists(rp) and rnd == 4 and not old.get('confirmed_by_me'):
+    if os.path.exists(rp) and rnd == 5 and not old.get('confirmed_by_me'):
         for line in open(rp):
             if '=' in line:
                 k, v = line.strip().split('=', 1)
